@@ -140,6 +140,19 @@ class Vec:
         return "Vec(%s)" % bytes(self.b).hex()
 
 
+class UninitBox:
+    """`Box<MaybeUninit<T>>` from `Box::new_uninit()` (the `vec![..]` expansion) and the raw pointer
+    read out of it: every field projection is a transparent wrapper; a write through it fills the cell."""
+    __slots__ = ("cell", "init")
+
+    def __init__(self, v=None, init=False):
+        self.cell = [v]
+        self.init = init  # initialised Box<T>: a deref enters the content
+
+    def __repr__(self):
+        return "%s(%r)" % ("Box" if self.init else "UninitBox", self.cell[0])
+
+
 class Adt:
     __slots__ = ("path", "vi", "vname", "fields")
 
@@ -287,7 +300,7 @@ class Interp:
                 v = self.read_path(frame, local, path)
                 if isinstance(v, Ref):
                     frame, local, path = v.frame, v.local, list(v.path)
-                elif isinstance(v, (Slice, Ptr, Opaque, Vec)) or v is None:
+                elif isinstance(v, (Slice, Ptr, Opaque, Vec, UninitBox)) or v is None:
                     path.append("*")
                 elif isinstance(v, Adt) and v.path.endswith("Box"):
                     path.append(("f", 0))
@@ -312,6 +325,10 @@ class Interp:
     def read_path(self, frame, local, path):
         v = frame.locals[local]
         for p in path:
+            if isinstance(v, UninitBox):
+                if v.init and p == "*":
+                    v = v.cell[0]
+                continue
             if p == "*":
                 if isinstance(v, (Slice, Ptr, Opaque, Vec)):
                     continue
@@ -355,6 +372,11 @@ class Interp:
 
     def write(self, fr, pl, val):
         frame, local, path = self.resolve(fr, pl)
+        if path and path[-1] == "*":
+            tgt = self.read_path(frame, local, path[:-1])
+            if isinstance(tgt, UninitBox) and tgt.init:
+                tgt.cell[0] = val
+                return
         while path and path[-1] == "*":
             # writing through a Slice/opaque deref is not meaningful
             path = path[:-1]
@@ -364,11 +386,20 @@ class Interp:
             return
         v = frame.locals[local]
         for p in path[:-1]:
+            if isinstance(v, UninitBox):
+                if v.init:
+                    if p == "*":
+                        v = v.cell[0]
+                    continue
+                break
             if p == "*":
                 if isinstance(v, Ref):
                     v = self.read_path(v.frame, v.local, v.path)
                 continue
             v = self._child(v, p)
+        if isinstance(v, UninitBox) and not v.init:
+            v.cell[0] = val
+            return
         p = path[-1]
         if p == "*":
             raise Unsupported("write through opaque deref")
@@ -755,6 +786,8 @@ class Interp:
         raise Unsupported("rvalue %r" % (rv[0],))
 
     def transmute(self, v, ty):
+        if isinstance(v, UninitBox):
+            return v
         if isinstance(v, Vec):
             if ty.startswith("[u8;") or ty.startswith("[i8;"):
                 return [wrap(x, "i8" if ty.startswith("[i8") else "u8") for x in v.b]
